@@ -73,6 +73,10 @@ def run(ctx):
     for (t, rho), (tag, v) in list(zip(cases, raws))[::97]:
         if tag == "ok" and getattr(v, "format_constraints_expression", None) and exprs.size(t) >= 3:
             ctx.sample({"expression": exprs.show(t), "rc": rho, "collected": v.format_constraints_expression})
+    from vlib import latency
+
+    ctx.add_eval(latency.rc_latency_oracle(ctx, cases, 12 if ctx.quick else 150,
+                                           "oracle: the collected format-constraint expression does not depend on how long the single asynchronous evaluators take"))
     return finish(ctx, assumptions=["interpretation S1 of the direct reading (DESIGN.md section 7)",
                                     "the string-level builder equals `render` of the token-level builder: established by correspondence (character by character), not by a theorem"])
 
